@@ -11,7 +11,7 @@ import subprocess
 import sys
 import time
 
-VERIF = "/verif"
+VERIF = os.environ.get("VF_VERIF", "/verif")
 
 
 def run_seed(name, jobs, tier, tmax, prop_override=None):
